@@ -328,8 +328,10 @@ def run(case):
                 for p, wv in zip(pts, got):
                     wv = list(wv)
                     if case["inconsistent"] and len(set(mapping)) < total:
-                        # perturb the world of the second user of a shared axis
-                        dup = [i for i in range(total) if mapping.index(mapping[i]) != i][0]
+                        # perturb the world of a later user of a shared axis (any of them: with three or
+                        # more users the disagreement may sit on the last one only)
+                        dups = [i for i in range(total) if mapping.index(mapping[i]) != i]
+                        dup = dups[(case["wseed"] + len(back_obs)) % len(dups)]
                         k, acc = 0, 0
                         for mi, m in enumerate(members):
                             if dup < acc + m.pixel_n_dim:
